@@ -163,7 +163,7 @@ type RandCfg struct {
 	Prec                        bool // add precedence lines
 }
 
-var litPool = []byte("+-*/=<>()[],.!?&^~#@")
+var litPool = []byte("+-*/=<>()[],.!?&^~#@aeoprtxZ09$_")
 
 // Rand produces a random grammar (not necessarily usable).
 func Rand(r *rand.Rand, c RandCfg) *spec.Grammar {
